@@ -34,11 +34,18 @@ const c15Chunk = 500
 func init() {
 	harness.Register(&harness.Check{
 		ID: "C15", Level: "exploration",
-		Rule:        "types: every type of depth <= 2 over 1, A, *, -*, +{l}, +{l,r}, &{l}, &{l,r} and 8 (quick) / all 32 (thorough) shift forms, plus depth-3 types over a reduced alphabet (thorough), under every head mode; only well-formed ones count; each is parsed by the real parser, printed with String(), re-parsed under the same head mode and compared structurally (modes, order of branches); terms: see the term part of this check; distinct_nontrivial = distinct well-formed (head mode, type) pairs with at least one binary or shift constructor",
+		Rule:        "types: every type of depth <= 2 over 1, A, *, -*, +{l}, +{l,r}, &{l}, &{l,r} and 8 (quick) / all 32 (thorough) shift forms, plus depth-3 types over a reduced alphabet (thorough), under every head mode; only well-formed ones count; each is parsed by the real parser, printed with String(), re-parsed under the same head mode and compared structurally (modes, order of branches); terms: the body of every function (written with self) and multi-name process of every driver, example and generated program is printed with Form.String(), parsed back as a process body and compared with process.EqualForm, and must re-print identically; distinct_nontrivial = distinct well-formed (head mode, type) pairs with at least one binary or shift constructor",
 		Assumptions: []string{"structural comparison on exported fields of the real type trees (converted to the reference representation)"},
-		Cases:       func(c *harness.Ctx) int { return (len(c15Types(c)) + c15Chunk - 1) / c15Chunk },
+		Cases:       func(c *harness.Ctx) int { return (len(c15Types(c))+c15Chunk-1)/c15Chunk + (len(basePrograms(c))+c15Chunk-1)/c15Chunk },
 		Run: func(c *harness.Ctx, idx int, r *harness.Rec) {
 			ts := c15Types(c)
+			if nt := (len(ts) + c15Chunk - 1) / c15Chunk; idx >= nt {
+				bs := basePrograms(c)
+				for i := (idx - nt) * c15Chunk; i < (idx-nt+1)*c15Chunk && i < len(bs); i++ {
+					c15TermCase(bs[i].Name, bs[i].Text, r)
+				}
+				return
+			}
 			printed := map[string]string{}
 			for i := idx * c15Chunk; i < (idx+1)*c15Chunk && i < len(ts); i++ {
 				a := ref.AnnTy{Ann: ts[i].Ann, T: ts[i].T.Copy()}
